@@ -93,7 +93,7 @@ class C19(H.Check):
     id = 'C19'
     title = 'Configuration is preserved, round-trips, and obeys flag > file > default'
     required_covers = ('doc:plugins-absent', 'doc:plugins-object', 'doc:plugins-with-typegen', 'doc:plugins-not-object', 'doc:symbolic-key-is-plugins',
-                       'prec:flag', 'prec:file', 'prec:default', 'reject:validation', 'reject:project-path', 'init:ok', 'init:rejected', 'build:file', 'build:default')
+                       'prec:flag', 'prec:file', 'prec:default', 'reject:validation', 'reject:project-path', 'file:wrongly-typed-optional-key', 'init:ok', 'init:rejected', 'build:file', 'build:default')
 
     def bounds(self, tier):
         q = tier != 'thorough'
@@ -358,6 +358,12 @@ class C19(H.Check):
                 fs['validationLibrary'] = vl_file
             if file_vb:
                 fs['verbose'] = True
+            # an optional key of the wrong JSON type next to the settings that matter: it does not take the rest of the section with it
+            junk = None
+            if has_file and e.choose(3) == 0:
+                junk = [('excludePatterns', 'target'), ('typeMappings', ['x']), ('includePatterns', {'a': 1})][e.choose(3)]
+                fs[junk[0]] = junk[1]
+                e.cover('file:wrongly-typed-optional-key')
             # a missing project path on the winning side
             missing = bool(e.choose(2)) and (f_pp or file_pp)
             flag_pp = './byflag'
